@@ -24,6 +24,9 @@ TECHNIQUE += '; def-use, backward liveness and a frame-slot value-preservation a
 
 EXPLANATION += ' RV-RT-STOREORDER, CTOR-INIT, RVV-JIT-VLEN.'
 
+EXPLANATION += ' RV-LOOPLOAD.'
+CLAIM += (' The load half of the loop executed on terms: r_j ^= quadword j at the first address, f / e lanes converted from the sixteen 32-bit integers at the second address in order, e lanes masked with one and-mask and the or-mask of their lane parity (RV-LOOPLOAD, both ISA variants).')
+
 
 def run(ctx, R):
     FI = astq.Facts(ctx, 'K0')
